@@ -33,6 +33,8 @@ DIALECTS = [
     {"quoting": csv.QUOTE_ALL},
     {"escapechar": "\\", "doublequote": False},
     {"lineterminator": "\n"},
+    {"lineterminator": "\r"},
+    {"skipinitialspace": True, "quoting": csv.QUOTE_ALL},
     {"delimiter": "|", "quoting": csv.QUOTE_MINIMAL, "lineterminator": "\r\n"},
 ]
 
